@@ -15,7 +15,7 @@ HERE = os.path.dirname(os.path.abspath(__file__))
 VERIF = os.path.dirname(HERE)
 LEAN = os.path.join(VERIF, "lean")
 SCRATCH = "/tmp/r_translator"
-PROPS = ["VelaVerif.Props.C19Src", "VelaVerif.Props.C04Src", "VelaVerif.Props.C06Src", "VelaVerif.Props.C09Src",
+PROPS = ["VelaVerif.Props.C19Src", "VelaVerif.Props.C04Src", "VelaVerif.Props.C06Src", "VelaVerif.Props.C09Src", "VelaVerif.Props.C10Src",
          "VelaVerif.Props.C15Src", "VelaVerif.Props.C17Src"]
 
 # name -> (kind, file, old, new)
